@@ -415,4 +415,153 @@ theorem disjointOn_interior (a rhs : Aabb3 K) (i : Fin 3)
 
 end diff
 
+
+section seg
+variable (sq : K → K)
+set_option linter.style.haveILetI false
+
+/-! ## helpers for `Segment::local_split_and_get_intersection` -/
+
+/-- `f64::EPSILON` as an element of `K` -/
+def eps52 (K : Type) [Field K] : K := 1 / 4503599627370496
+
+theorem f64Eps_eq : @f64Eps K (fieldNum K sq) = eps52 K := by
+  simp only [f64Eps, fieldNum_lit, eps52]
+  norm_num
+
+theorem eps52_pos : (0 : K) < eps52 K := by unfold eps52; positivity
+theorem eps52_lt_one : eps52 K < 1 := by unfold eps52; rw [div_lt_one (by positivity)]; norm_num
+
+/-- `relative_eq!(x, 0.0)` ⇔ `|x| ≤ f64::EPSILON` -/
+theorem relEqZero_iff (x : K) : @relEqZero K (fieldNum K sq) x = true ↔ |x| ≤ eps52 K := by
+  have hp := @eps52_pos K _ _ _
+  have h1 := @eps52_lt_one K _ _ _
+  simp only [relEqZero, f64Eps_eq, fieldNum_nabs, neq, sub_self, sub_zero, abs_zero, le_refl, decide_true, Bool.and_self,
+    Bool.not_true, Bool.false_eq_true, if_false]
+  split_ifs with c1 c2 c3
+  · simp only [Bool.and_eq_true, decide_eq_true_eq] at c1
+    have : x = 0 := le_antisymm c1.1 c1.2
+    simp [this, hp.le]
+  · simp [c2]
+  · have := abs_nonneg x; exact absurd c3 (not_lt.mpr this)
+  · simp only [decide_eq_true_eq]
+    constructor
+    · intro h; nlinarith [abs_nonneg x]
+    · intro h; exact absurd h c2
+
+
+/-- arithmetic core of the no-split branch: the signed distance `-ap + u·bp` along the segment is at most `eps + e`
+when the mid-point is on the non-positive side and the crossing is within `eps` (along the segment, of length `L ≥ |bp|`)
+of an end point, or the segment is parallel to the plane up to `e`. -/
+theorem nosplit_bound (bp ap L eps e u : K) (hL : |bp| ≤ L) (he : 0 ≤ eps) (he' : 0 ≤ e) (hu0 : 0 ≤ u) (hu1 : u ≤ 1)
+    (hmid : 0 ≤ ap - bp * (1 / 2))
+    (hc : |bp| ≤ e ∨ ap / bp * L ≤ eps ∨ L - eps ≤ ap / bp * L) : -ap + u * bp ≤ eps + e := by
+  have hL0 : 0 ≤ L := le_trans (abs_nonneg _) hL
+  rcases abs_le.mp hL with ⟨hL1, hL2⟩
+  by_cases hb0 : bp = 0
+  · subst hb0; nlinarith
+  rcases hc with hc | hc
+  · rcases abs_le.mp hc with ⟨c1, c2⟩
+    nlinarith
+  · obtain ⟨t0, ht0⟩ : ∃ t0, t0 = ap / bp := ⟨_, rfl⟩
+    have hap : ap = t0 * bp := by rw [ht0]; field_simp
+    rw [← ht0] at hc
+    subst hap
+    rcases lt_or_gt_of_ne hb0 with hneg | hpos
+    · -- bp < 0: t0 ≤ 1/2
+      have ht : t0 ≤ 1 / 2 := by
+        by_contra hcon; push Not at hcon; nlinarith
+      rcases hc with hc | hc
+      · rcases le_total t0 u with h | h
+        · nlinarith
+        · nlinarith [mul_nonneg (sub_nonneg.2 h) (sub_nonneg.2 hL1), mul_nonneg hu0 (neg_nonneg.2 hneg.le), mul_nonneg (le_trans hu0 h) (by linarith : (0:K) ≤ L + bp)]
+      · nlinarith [mul_nonneg (by linarith : (0:K) ≤ 1/2 - t0) hL0, mul_nonneg hu0 (neg_nonneg.2 hneg.le)]
+    · -- bp > 0: t0 ≥ 1/2
+      have ht : 1 / 2 ≤ t0 := by
+        by_contra hcon; push Not at hcon; nlinarith
+      rcases hc with hc | hc
+      · nlinarith [mul_nonneg (by linarith : (0:K) ≤ t0 - 1/2) hL0, mul_nonneg (sub_nonneg.2 hu1) hpos.le]
+      · rcases le_total u t0 with h | h
+        · nlinarith
+        · nlinarith [mul_nonneg (sub_nonneg.2 h) (sub_nonneg.2 hL2), mul_nonneg (sub_nonneg.2 hu1) hpos.le,
+            mul_nonneg (by linarith : (0:K) ≤ 1 - t0) (sub_nonneg.2 hL2)]
+
+
+/-- Cauchy–Schwarz for a unit normal: `|n·d| ≤ √(d·d)` -/
+theorem abs_dot_le_norm (hs : LawfulSqrt sq) (n d : V3 K)
+    (hn : letI := fieldNum K sq; n.dot n = 1) :
+    letI := fieldNum K sq
+    |n.dot d| ≤ d.norm := by
+  simp only [V3.norm, V3.normSq, V3.dot, fieldNum_sqrt] at hn ⊢
+  have hdd : 0 ≤ d.x * d.x + d.y * d.y + d.z * d.z := by nlinarith [mul_self_nonneg d.x, mul_self_nonneg d.y, mul_self_nonneg d.z]
+  have h0 := hs.nonneg _ hdd
+  have h1 := hs.sq_mul _ hdd
+  have cs : (n.x * d.x + n.y * d.y + n.z * d.z) * (n.x * d.x + n.y * d.y + n.z * d.z) ≤ d.x * d.x + d.y * d.y + d.z * d.z := by
+    nlinarith [sq_nonneg (n.x * d.y - n.y * d.x), sq_nonneg (n.y * d.z - n.z * d.y), sq_nonneg (n.z * d.x - n.x * d.z)]
+  rw [abs_le]
+  constructor <;> nlinarith
+
+/-- signed distance of a point of the segment: `n·(a + (b-a)u) - bias = -(bias - n·a) + u (n·(b-a))` -/
+theorem sdist_on_segment (a b n : V3 K) (bias u : K) :
+    letI := fieldNum K sq
+    n.dot (a.add ((b.sub a).smul u)) - bias = -(bias - n.dot a) + u * n.dot (b.sub a) := by
+  simp only [V3.dot, V3.add, V3.sub, V3.smul]; ring
+
+/-- `√(c²·x) = c·√x` for `c, x ≥ 0` -/
+theorem sqrt_scale (hs : LawfulSqrt sq) (c x : K) (hc : 0 ≤ c) (hx : 0 ≤ x) : sq (c * c * x) = c * sq x := by
+  have h1 : 0 ≤ c * c * x := mul_nonneg (mul_self_nonneg c) hx
+  rw [← mul_self_inj (hs.nonneg _ h1) (mul_nonneg hc (hs.nonneg _ hx)), hs.sq_mul _ h1]
+  have := hs.sq_mul _ hx
+  linear_combination (-(c * c)) * this
+
+/-- lengths of the two pieces of a segment cut at parameter `t ∈ [0,1]` -/
+theorem piece_norms (hs : LawfulSqrt sq) (a b : V3 K) (t : K) (ht0 : 0 ≤ t) (ht1 : t ≤ 1) :
+    letI := fieldNum K sq
+    ((a.add ((b.sub a).smul t)).sub a).norm = t * (b.sub a).norm ∧
+    (b.sub (a.add ((b.sub a).smul t))).norm = (1 - t) * (b.sub a).norm := by
+  simp only [V3.norm, V3.normSq, V3.dot, V3.add, V3.sub, V3.smul, fieldNum_sqrt]
+  have hdd : 0 ≤ (b.x - a.x) * (b.x - a.x) + (b.y - a.y) * (b.y - a.y) + (b.z - a.z) * (b.z - a.z) := by
+    nlinarith [mul_self_nonneg (b.x - a.x), mul_self_nonneg (b.y - a.y), mul_self_nonneg (b.z - a.z)]
+  constructor
+  · rw [← sqrt_scale sq hs t _ ht0 hdd]; congr 1; ring
+  · rw [← sqrt_scale sq hs (1 - t) _ (by linarith) hdd]; congr 1; ring
+
+theorem dot_sub_eq (a b n : V3 K) (bias : K) :
+    letI := fieldNum K sq
+    n.dot (b.sub a) = (n.dot b - bias) - (n.dot a - bias) := by
+  simp only [V3.dot, V3.sub]; ring
+
+/-- the no-split condition holds when both end points are (weakly) on the same side -/
+theorem nosplit_of_same_side (hs : LawfulSqrt sq) (s : Segment3 K) (n : V3 K) (bias eps : K) (he : 0 ≤ eps)
+    (hside : (letI := fieldNum K sq; n.dot s.a - bias ≤ 0 ∧ n.dot s.b - bias ≤ 0) ∨
+             (letI := fieldNum K sq; 0 ≤ n.dot s.a - bias ∧ 0 ≤ n.dot s.b - bias)) :
+    letI := fieldNum K sq
+    (relEqZero (n.dot (s.b.sub s.a)) || decide ((bias - n.dot s.a) / n.dot (s.b.sub s.a) * (s.b.sub s.a).norm ≤ eps) ||
+      decide ((s.b.sub s.a).norm - eps ≤ (bias - n.dot s.a) / n.dot (s.b.sub s.a) * (s.b.sub s.a).norm)) = true := by
+  letI : Num K := fieldNum K sq
+  have hL0 : 0 ≤ (s.b.sub s.a).norm := by
+    simp only [V3.norm, fieldNum_sqrt]; apply hs.nonneg
+    simp only [V3.normSq, V3.dot]
+    nlinarith [mul_self_nonneg (s.b.sub s.a).x, mul_self_nonneg (s.b.sub s.a).y, mul_self_nonneg (s.b.sub s.a).z]
+  simp only [Bool.or_eq_true, decide_eq_true_eq, relEqZero_iff]
+  have hd := dot_sub_eq sq s.a s.b n bias
+  by_cases hb0 : n.dot (s.b.sub s.a) = 0
+  · left; left; rw [hb0, abs_zero]; exact eps52_pos.le
+  generalize (s.b.sub s.a).norm = L at *
+  generalize hbp : n.dot (s.b.sub s.a) = bp at *
+  -- crossing parameter t0 = a'/b' is ≤ 0 or ≥ 1
+  have key : (bias - n.dot s.a) / bp ≤ 0 ∨ 1 ≤ (bias - n.dot s.a) / bp := by
+    rcases lt_or_gt_of_ne hb0 with hneg | hpos
+    · rcases hside with ⟨h1, h2⟩ | ⟨h1, h2⟩
+      · left; exact div_nonpos_of_nonneg_of_nonpos (by linarith) hneg.le
+      · right; rw [le_div_iff_of_neg hneg]; linarith
+    · rcases hside with ⟨h1, h2⟩ | ⟨h1, h2⟩
+      · right; rw [le_div_iff₀ hpos]; linarith
+      · left; exact div_nonpos_of_nonpos_of_nonneg (by linarith) hpos.le
+  rcases key with k | k
+  · left; right; nlinarith
+  · right; nlinarith
+
+end seg
+
 end C17
